@@ -21,6 +21,7 @@ def main():
         mod = importlib.import_module(f'props.{a.prop}')
         if a.tier == 'thorough':
             os.environ.setdefault('PYVC_MAX_PATHS', '12000')
+            os.environ.setdefault('PYVC_JOB_BUDGET_S', '3600')
         pr = mod.run(a.tier)
         # the evidence level is the level claimed in MANIFEST.json for this property
         try:
